@@ -45,11 +45,14 @@ def correspond(ctx):
 
 
 def gen_seg(rng):
-    fam = rng.choice(['random', 'random', 'line', 'cusp', 'loop', 'retrace', 'smooth', 'quad', 'int'])
+    fam = rng.choice(['random', 'random', 'line', 'cusp', 'loop', 'retrace', 'smooth', 'quad', 'int', 'smallint', 'closedseg'])
     r = lambda: P(rng.uniform(-300, 300), rng.uniform(-300, 300))
     if fam == 'line': return fam, Line(r(), r())
     if fam == 'quad': return fam, QuadraticBezier(r(), r(), r())
     if fam == 'int': return fam, gen.segment(rng, order=rng.choice([3, 4]), fam='int')[0]
+    if fam == 'smallint': return fam, gen.segment(rng, order=rng.choice([3, 4]), fam='smallint')[0]
+    if fam == 'closedseg':
+        a = r(); return fam, CubicBezier(a, r(), r(), a)
     if fam == 'cusp':
         a, d = r(), P(rng.uniform(50, 200), rng.uniform(50, 200))
         return fam, CubicBezier(a, a + d, a + P(d.x, 0) * 0.0 + P(0, d.y), a + P(d.x, 0))   # (0,0),(d),(0,dy),(dx,0): cusp-like
@@ -117,6 +120,10 @@ def search(ctx):
         t = rng.choice([0.5, rng.random(), rng.random()])
         seed2 = rng.randrange(1 << 30)
         f, meas = check(s, t, _r.Random(seed2))
+        if not f and s.scaled(2.0).length != 2.0 * s.length and abs(s.scaled(2.0).length - 2.0 * s.length) > 1e-9 * max(1.0, s.length):
+            f = [f'scaling by 2: {s.scaled(2.0).length!r} vs {2.0 * s.length!r}']
+        if not f and rng.random() < 0.25:
+            f = gen.freshness(rng, s, {'length': lambda x: x.length, 'lengthAtTime': lambda x: x.lengthAtTime(t)})
         dist[fam] = dist.get(fam, 0) + 1
         if 'rel_err' in meas:
             seen.add(gen.seg_key(s)); worst[fam] = max(worst.get(fam, 0.0), meas['rel_err'])
@@ -125,6 +132,9 @@ def search(ctx):
     # path length is the sum
     for _ in range(ctx.n(40, 500)):
         segs = [gen.segment(rng)[0] for _ in range(rng.randint(1, 6))]
+        if rng.random() < 0.4:
+            a = P(rng.uniform(-200, 200), rng.uniform(-200, 200))
+            segs.insert(rng.randrange(len(segs) + 1), CubicBezier(a, a + P(150, 80), a + P(-150, 80), a))   # a segment that ends where it starts
         p = BezierPath.fromSegments(segs)
         if abs(p.length - sum(s.length for s in segs)) > 1e-9 * max(1, p.length):
             fails.append({'class': 'C04-path', 'what': 'path length is not the sum of its segments', 'input': {'path': [gen.seg_json(s) for s in segs]}, 'observed': p.length, 'expected': sum(s.length for s in segs)})
